@@ -24,4 +24,7 @@ def run(chk):
     beh += N.config_grid_behaviours(rng, 4000 if thorough else 300)
     N.run_driver(chk, beh, "config-grid")
     N.run_driver(chk, N.model_sequences(chk, 3000 if thorough else 300), "tlc-state-cover")
+    import livetests
+    if thorough or False:
+        livetests.run(chk)   # the repository's own scenario tests, traced and validated against the same contract
     chk.assumptions += N.ASSUME + ["the control-plane refusal of STORE TTLs outside the window is exercised by the C28 check (clause C28.accepted-bad-ttl) on the real ControlServer"]
